@@ -5,7 +5,7 @@ from checks import base
 
 _cache = {}
 
-HOLD = {"calls": 0, "inside": None, "ret": None, "body_exc": None}
+HOLD = {"calls": 0, "inside": None, "ret": None, "body_exc": None, "probe": None, "probe_result": None}
 
 
 def typechecker(name):
@@ -23,6 +23,8 @@ def typechecker(name):
 def _body():
     HOLD["calls"] += 1
     HOLD["inside"] = base.bindings()
+    if HOLD["probe"] is not None:
+        HOLD["probe_result"] = HOLD["probe"]()
     if HOLD["body_exc"] is not None:
         raise HOLD["body_exc"]
     return HOLD["ret"]
